@@ -547,36 +547,37 @@ func (l *List) Merge(sta funcGen.Stack[Value]) (*List, error) {
 	}
 	if otherList, ok := other.ToList(); ok {
 		return NewListFromIterable(func(st funcGen.Stack[Value]) iterator.Producer[Value] {
-			// The two producers run in their own goroutines, so each needs its own stack. If
-			// the consumer of the merged list stops early, these goroutines would go on
-			// reading their source up to its end, so the sources are stopped explicitly.
-			var stopped atomic.Bool
-			stoppable := func(p iterator.Producer[Value]) iterator.Producer[Value] {
-				return func(yield iterator.Consumer[Value]) {
-					p(func(v Value, err error) bool {
-						if stopped.Load() {
-							return false
-						}
-						return yield(v, err)
-					})
-				}
-			}
-			merged := iterator.Merge(stoppable(recoverProducer(l.iterable(funcGen.NewEmptyStack[Value]()))), stoppable(recoverProducer(otherList.iterable(funcGen.NewEmptyStack[Value]()))),
-				func(a, b Value) (bool, error) {
-					st.Push(a)
-					st.Push(b)
-					value, err2 := f.Func(st.CreateFrame(2), nil)
-					if err2 != nil {
-						return false, err2
-					}
-					if less, ok := value.(Bool); ok {
-						return bool(less), nil
-					} else {
-						return false, errors.New("function in merge needs to return a bool, (a<b)")
-					}
-				})
 			return func(yield iterator.Consumer[Value]) {
+				// The two producers run in their own goroutines, so each needs its own stack. If
+				// the consumer of the merged list stops early, these goroutines would go on
+				// reading their source up to its end, so the sources are stopped explicitly.
+				// The flag belongs to this iteration: the producer may be iterated again.
+				var stopped atomic.Bool
 				defer stopped.Store(true)
+				stoppable := func(p iterator.Producer[Value]) iterator.Producer[Value] {
+					return func(yield iterator.Consumer[Value]) {
+						p(func(v Value, err error) bool {
+							if stopped.Load() {
+								return false
+							}
+							return yield(v, err)
+						})
+					}
+				}
+				merged := iterator.Merge(stoppable(recoverProducer(l.iterable(funcGen.NewEmptyStack[Value]()))), stoppable(recoverProducer(otherList.iterable(funcGen.NewEmptyStack[Value]()))),
+					func(a, b Value) (bool, error) {
+						st.Push(a)
+						st.Push(b)
+						value, err2 := f.Func(st.CreateFrame(2), nil)
+						if err2 != nil {
+							return false, err2
+						}
+						if less, ok := value.(Bool); ok {
+							return bool(less), nil
+						} else {
+							return false, errors.New("function in merge needs to return a bool, (a<b)")
+						}
+					})
 				merged(yield)
 			}
 		}), nil
